@@ -21,8 +21,8 @@ def plan(tier, ctx):
     j += fvm.config('C03', 'mutex_2', 'mutex.c', 2, 4, 'sc', srcs=src, defines=['NF=2'], spec=fvm.kspec(2), bounds='2 fibers lock/unlock')
     j += fvm.config('C03', 'mutex_2', 'mutex.c', 2, 4, 'tso', srcs=src, defines=['NF=2'], spec=fvm.kspec(2), bounds='2 fibers, TSO', timeout=900)
     j += fvm.config('C03', 'mutex_lock_try', 'mutex.c', 2, 4, 'sc', srcs=src, defines=['NF=2', 'T2_TRY'], spec=fvm.kspec(2), bounds='1 locker + 1 trylock', timeout=900)
-    j += fvm.config('C03', 'mutex_3try', 'mutex.c', 3, 4, 'sc', srcs=src, defines=['NF=3', 'T3_TRY'], spec=fvm.kspec(3), bounds='2 lockers + 1 trylock', timeout=1800, required=False)
     if tier == 'thorough':
+        j += fvm.config('C03', 'mutex_3try', 'mutex.c', 3, 4, 'sc', srcs=src, defines=['NF=3', 'T3_TRY'], spec=fvm.kspec(3), bounds='2 lockers + 1 trylock', timeout=3000, required=False)
         j += fvm.config('C03', 'mutex_3', 'mutex.c', 3, 4, 'sc', srcs=src, defines=['NF=3'], spec=fvm.kspec(3), bounds='3 fibers', timeout=1800, required=False)
         j += fvm.config('C03', 'mutex_2x2', 'mutex.c', 2, 5, 'sc', srcs=src, defines=['NF=2', 'ROUNDS=2'], spec=fvm.kspec(2), bounds='2 fibers x 2 rounds', timeout=1800, required=False)
     return j
